@@ -97,6 +97,8 @@ inductive Expr where
   | idxU (a i : Expr)                       -- `a[i]` of a `[]uint64` / `[N]uint32` (a uint32 is carried as a `u64` below 2^32)
   | idxK (m i : Expr)                       -- `path[i]` of a `...string` (a list of byte strings, carried as `Val.keys`)
   | dropK (m n : Expr)                      -- `path[n:]` of a `...string`
+  | nilK                                    -- an empty `[]string`
+  | pushK (a e : Expr)                      -- `append(a, e)` for one string `e` (its bytes)
   deriving Repr, Inhabited
 
 inductive Stmt where
@@ -555,6 +557,16 @@ def evalE (s : St) : Expr → EOut
        | .val _ => .stuck "index type"
        | o => o)
     | .val _ => .stuck "index operand"
+    | o => o
+  | .nilK => .val (.keys [])
+  | .pushK a e =>
+    match evalE s a with
+    | .val (.keys ks) =>
+      (match evalE s e with
+       | .val (.bytes b) => .val (.keys (ks ++ [b]))
+       | .val _ => .stuck "append operand"
+       | o => o)
+    | .val _ => .stuck "append operand"
     | o => o
   | .idxK m i =>
     match evalE s m with
